@@ -610,7 +610,7 @@ class DefinedShape(BaseShape):
         >>> circle.move(1, 2)
 
         """
-        point = Point2D(*point)
+        point = copy(Point2D(*point))
         for jordan in self.jordans:
             jordan.move(point)
         return self
